@@ -109,6 +109,11 @@ def recipes(S):
     add("exclude_union", B([should(T(A)), should(T(Bm | X)), mustnot(B([should(T(X & 0b00110)), should(T(X & 0b10000))]))]))
     add("reqopt", B([must(T(S)), should(T(0b01101))]))
     add("msm2of3", B([should(T(S | C1)), should(T(S | C2)), should(T(S))], 2))
+    # documents of S match 2 * msm clauses or more (the Disjunction scorer must not emit them twice), the others at most one
+    add("msm2of4", B([should(T(S | C1)), should(T(S | C2)), should(T(S)), should(T(S, "basic"))], 2))
+    add("msm2of5", B([should(T(S | C1)), should(T(S | C2)), should(T(S)), should(irange(S)), should(T(S, "pos"))], 2))
+    add("msm3of6", B([should(T(S | C1)), should(T(S | C2)), should(T(S)), should(irange(S, "f")), should(T(S, "pos")),
+                      should(T(S, "basic")), should(T(S))], 3))
     add("msm2of2", B([should(T(S | C1)), should(T(S | C2))], 2))
     add("msm1_must", B([must(T(S | C1)), should(T(S | C2)), should(T(S & 0b00111))], 1))
     add("boost_union", {"k": "boost", "q": B([should(T(A)), should(T(Bm))]), "b": 2.0}, (True,))
